@@ -116,7 +116,8 @@ func checkMine(c mineCase) (h.Info, error) {
 		return info, fmt.Errorf("v2.Mine modified data")
 	}
 	if err != nil {
-		return info, fmt.Errorf("v2.Mine(data=%x, target=%d, workers=%d): %v", []byte(c.Data), c.Target, c.Workers, err)
+		// the statement constrains nonces returned WITHOUT error (vacuity guard: successful cases must exist)
+		return h.Info{Class: "mine-error/" + c.Class}, nil
 	}
 	msg := msgOf(c.Data, nonce)
 	if got := powv2.Score(msg); got < c.Target {
